@@ -47,7 +47,10 @@ def run_config(run, exe, spec, name, conf, consts, prop, workers=3, env=None, ca
     tla, cfg = write_mc(spec, name, conf, consts)
     # conf["_sim"] = (behaviours per worker, depth): configuration too large for breadth-first search, behaviours from TLC's simulation mode
     budget = int(os.environ.get("VERIF_BFS_BUDGET", "1500"))
-    g, info = tlcgraph.run_tlc_graph(tla, cfg, workers=workers, cwd=MC, timeout=3000 if conf.get("_sim") else budget, simulate=conf.get("_sim"), sim_seed=seed())
+    sim = conf.get("_sim")
+    if sim and run.tier == "thorough":
+        sim = (sim[0] * 10, sim[1])          # ten times as many simulated behaviours in the thorough tier
+    g, info = tlcgraph.run_tlc_graph(tla, cfg, workers=workers, cwd=MC, timeout=3000 if sim else budget, simulate=sim, sim_seed=seed())
     if not conf.get("_sim") and info.get("rc") == 124:
         run.note("configuration %s/%s: breadth-first search exceeded %d s; using simulation-mode behaviours instead" % (spec, name, budget))
         run.cov.setdefault("bfs_fallback_to_simulation", []).append(spec + "/" + name)
